@@ -219,6 +219,9 @@ fn run_case(ctx: &Ctx, index: u64, rep: &mut Report) {
     let mut sess = Session::new();
     sess.keep_log = false;
     sess.it.enable_tracing = true;
+    // warnings on in half of the cases: INPUT into an undeclared array warns when the reply is stored, once
+    let warn = rng.coin();
+    sess.it.enable_warnings = warn;
     sess.call(Op::Randomize(seed));
     if let Err(m) = exec::load_program(&mut sess, &g.prog) {
         ctx.violation(rep, "C08", "load-rejected", index, m, exec::program_json(&g.prog));
@@ -231,8 +234,8 @@ fn run_case(ctx: &Ctx, index: u64, rep: &mut Report) {
             rep.count(&format!("feature.{}", f));
         }
     }
-    let cmp = match compare_turns(&real, &model, CmpOpts { tracing: true, warnings: false }) {
-        Err(_) if crate::cmp::compare_flat(&real, &model, CmpOpts { tracing: true, warnings: false }).is_ok()
+    let cmp = match compare_turns(&real, &model, CmpOpts { tracing: true, warnings: warn }) {
+        Err(_) if crate::cmp::compare_flat(&real, &model, CmpOpts { tracing: true, warnings: warn }).is_ok()
             && real.turns.iter().filter(|t| t.was_reply).all(|t| t.outs.iter().filter(|o| matches!(o, crate::drive::Out::Trace(_))).count() <= 1) =>
         {
             // only the placement of turn boundaries differs from the model; requests, records between replies,
@@ -276,7 +279,7 @@ fn run_case(ctx: &Ctx, index: u64, rep: &mut Report) {
                     json!({"program": exec::program_json(&g.prog), "replies": g.replies}));
                 return;
             }
-            let flat = crate::cmp::compare_flat(&real, &model, CmpOpts { tracing: true, warnings: false }).err().unwrap_or_default();
+            let flat = crate::cmp::compare_flat(&real, &model, CmpOpts { tracing: true, warnings: warn }).err().unwrap_or_default();
             ctx.violation(rep, "C08", "input-sequence", index,
                 format!("INPUT behaviour differs from the reference: {} (flattened comparison: {})", why, flat),
                 json!({"program": exec::program_json(&g.prog), "replies": g.replies, "turn": i + 1,
